@@ -479,18 +479,18 @@ func genLifecycle(r *Rng, idx int, tier string, step func(op string) string) {
 		case roll < 22:
 			do("start")
 		case roll < 40:
-			if ntrk > 0 && r.Chance(50) {
+			if ntrk > 0 && r.Chance(65) {
 				// the trackers do not answer the stopped event: the torrent stays Stopping until the stop timeout
 				do(fmt.Sprintf("trk mode=%s", r.Pick2("hang-stopped", "hang-stopped", "ok")))
 			}
 			do("stop")
 			if ntrk > 0 {
-				switch r.Intn(5) {
+				switch r.Intn(4) {
 				case 0:
 					do("start") // a start while the torrent is still stopping
 				case 1:
 					do("obs")
-				case 2:
+				case 2, 3:
 					if ntrk < 4 {
 						do("addtracker") // a tracker added while the torrent is still stopping: remembered, not announced to
 						ntrk++
